@@ -40,7 +40,7 @@ class Parser:
     def ast(self, expression, context=None):
         try:
             match = self.is_formula(expression.replace('\n', '')).groupdict()
-            expr = match['name']
+            expr = match['name'].rstrip()  # Trailing blanks mean nothing.
         except (AttributeError, KeyError):
             raise FormulaError(expression)
         builder = self.ast_builder(match=match)
